@@ -18,6 +18,9 @@ THEOREMS = [
     "BeyondVerif.C07.fields_denote_instant",
     "BeyondVerif.C07.fields_jday",
     "BeyondVerif.C07.time_resolution",
+    "BeyondVerif.C07.history_reply_eq_fresh",
+    "BeyondVerif.C07.history_reply_eq_fresh_new",
+    "BeyondVerif.C07.bind_key_covers_regen",
     "BeyondVerif.C07.beta_frame_orthonormal",
     "BeyondVerif.C07.beta_kepler_residual",
     "BeyondVerif.C07.beta_kepler_residual_abs",
@@ -47,7 +50,10 @@ THEOREMS = [
 LEVEL_TEXT = ("Lean theorems: (1) default propagator with the sgp4 package as a parameter: for every library, TLE text and date the wrapper returns 1000 x the "
               "library's result on the original lines and the UTC calendar tuple of the instant (given C12's parse/write identity as hypothesis); the tuple "
               "(CPython's ord2ymd, modelled branch for branch) is a valid civil date that denotes the instant exactly for every date from year 1, and the "
-              "library's own Julian-day formula reads it back correctly for 1901-2099; exact correspondence of the arguments really handed to the library. "
+              "library's own Julian-day formula reads it back correctly for 1901-2099; exact correspondence of the arguments really handed to the library; "
+              "the binding logic (orbit setter, _state, _bound_to) as a state machine over a MUTABLE orbit: after any history of in-place edits and propagations the reply is "
+              "that of a fresh propagator on the values the orbit holds now (history_reply_eq_fresh), the statements of Sgp4 being read from the AST (any other shape or member "
+              "is refused) and 'every input Tle.from_orbit reads is a label or is covered by the key _state compares' decided on sets regenerated from sgp4.py and tle.py. "
               "(2) native Sgp4Beta translated from its Python AST on every run, cut into 12 pieces: orthonormal frame, Kepler loop exit => Newton correction "
               "< 1e-12 for every fuel, WGS-72 constants, a0 = (k_e/n0'')^(2/3). (3) native model = reference theory over R, piece by piece, against a "
               "hand-written transcription of python-sgp4's _initl/sgp4init/sgp4 near-Earth path (templates/Sgp4Ref.tpl) that is itself compared with the "
@@ -69,7 +75,9 @@ TRUSTED = [
     "(date handling, object construction) and any other statement makes the extraction fail",
     "lean/templates/Sgp4Ref.tpl (hand-written transcription of sgp4/propagation.py: _initl, sgp4init, sgp4 for method 'n'), tied to the installed package by the correspondence run "
     "(24 satellite-record fields incl. isimp and the deep-space switch, mean elements am em om Om mm after a call, state; rtol 1e-9)",
-    "lean/BeyondVerif/Model/Sgp4Wrap.lean (hand-written: CPython ord2ymd, strftime fields, wrapper control flow), tied by the exact correspondence run (arguments intercepted between beyond and the sgp4 package, stub and real library)",
+    "harness/props/C07.py gen_wrap_bind: compares the statement lists of Sgp4.orbit (getter, setter) and Sgp4.propagate with the modelled ones (exact, via ast.unparse), refuses further members, "
+    "reads the key of Sgp4._state and the read-set of Tle.from_orbit into Generated/Sgp4WrapBind.lean",
+    "lean/BeyondVerif/Model/Sgp4Wrap.lean (hand-written: CPython ord2ymd, strftime fields, wrapper control flow, binding state machine), tied by the exact correspondence run (arguments intercepted between beyond and the sgp4 package, stub and real library)",
     "the third-party package sgp4 2.27 (twoline2rv, Satellite.propagate, sgp4.propagation.sgp4) as the reference implementation of Vallado's SGP4/SDP4, WGS-72",
     "CPython: datetime arithmetic, strftime, float(decimal text) correctly rounded (checked equal to Lean's Float.ofScientific on every sampled value); sys.settrace line events (branch distribution in the evidence only)",
     "numpy / libm double arithmetic vs R: tolerance 1e-9 relative",
@@ -91,7 +99,9 @@ NOT_COVERED = [
     "the SGP4/SDP4 theory itself (inside the library parameter `lib`), including deep-space resonance and lunar-solar terms and the reference's simplified drag model below 220 km (the native model has no such switch; outside the clause)",
     "objects whose drag polynomial changes the semi-major axis by more than 2 % (oracle) / 20 % (correspondences) within the interval are excluded from the native comparisons (tallied)",
     "the compositions sgp4Prop / refSgp4 (which output of one piece is handed to the next) are generated / hand-written plumbing: tied by the correspondences, composed in a theorem only for the initialisation (beta_init_reference)",
-    "Sgp4 re-binding after an in-place modification of the orbit (sgp4.py `_state != _bound_to`): not an orbit 'built from a TLE'; the branch is recorded (never taken) in the evidence",
+    "history_reply_eq_fresh takes 'the compared key determines the library's answer for the regenerated text' as hypothesis: its syntactic side is bind_key_covers_regen (read-sets from the AST), "
+    "that label fields do not move the state and that Tle.from_orbit / StateVector attribute writes behave as read is the history oracle's (sources x edited inputs x propagations, expected = python-sgp4 on "
+    "lines the harness writes from the current values); unpickled orbits: open finding C07-unpickled-orbit-frame-identity",
     "double rounding of the seconds field beyond 'within 2^-48 s' (time_resolution takes the half-microsecond bound as hypothesis)",
 ]
 OPEN = [
@@ -104,7 +114,9 @@ RULE = ("correspondence: (a) 700/20000 edge datetimes 1957-2056 x 5 labels throu
         "(one TLE per FEATURE: every guard of sgp4beta.py and of the reference's sgp4init from both sides at field resolution, every exact field boundary) + 500/12000 catalogue-like TLEs x 2 dates: "
         "Sgp4Beta init values and state vs the compiled Lean translation, rtol 1e-9; both sides of every guard of the current source must have been taken (guards read from the AST, taken side "
         "observed by a line tracer on the real code) or the correspondence fails; (d) the same streams: reference spec vs python-sgp4 (record fields, mean elements, state), rtol 1e-9. "
-        "non-trivial = offset != 0; distinct = distinct request. oracle: pinned corpus, 4/24 rounds of the directed generator, 220/2500 catalogue-like TLEs: default propagator vs sgp4 called directly on the "
+        "(e) 240/1920 histories (12 ways of obtaining the orbit x 15 edited inputs singly, then combinations; before/after a first propagation; edit back) on real Orbit/Sgp4 objects with "
+        "twoline2rv intercepted, against the Lean state machine: the setter runs exactly when the model says and the lines handed over are those the harness writes from the values of the version the model names. "
+        "non-trivial = offset != 0; distinct = distinct request. oracle: the same histories end to end (state vs python-sgp4 on harness-written lines of the current values, |v| x 50 us), pinned corpus, 4/24 rounds of the directed generator, 220/2500 catalogue-like TLEs: default propagator vs sgp4 called directly on the "
         "original lines and independently computed UTC fields (|v| x 50 us), timedelta argument, label independence (UTC/TAI/TT/GPS/UT1), 3-line TLEs, native vs reference theory 1 cm in the full "
         "near-Earth domain; branch distribution of the native code, the wrapper and the reference record in the evidence (keys branch*)")
 
@@ -211,9 +223,126 @@ def _subst(node, name, new):
     return S().visit(node)
 
 
+# ---------------------------------------------------------------- extraction: sgp4.py binding logic -> Generated/Sgp4WrapBind.lean
+
+WRAP_PY = os.path.join(core.REPO, "beyond", "propagators", "sgp4.py")
+TLE_PY = os.path.join(core.REPO, "beyond", "io", "tle.py")
+# the statements the wrapper model (Model/Sgp4Wrap.lean: Wrapper.run, Machine.bind, Machine.step) stands for, as source text; the extractor
+# REFUSES any other shape (an added shortcut, another member of the class) instead of silently keeping the old model
+EXPECT_SETTER = """
+tle = Tle.from_orbit(orbit)
+lines = tle.text.splitlines()
+if len(lines) == 3:
+    _, line1, line2 = lines
+else:
+    line1, line2 = lines
+self.tle = twoline2rv(line1, line2, wgs72)
+self._orbit = orbit
+self._bound_to = self._state(orbit)
+"""
+EXPECT_GETTER = "return self._orbit if hasattr(self, '_orbit') else None"
+EXPECT_PROPAGATE = """
+if self._state(self._orbit) != self._bound_to:
+    self.orbit = self._orbit
+if type(date) is timedelta:
+    date = self.orbit.date + date
+utc = date.change_scale('UTC')
+_date = [float(x) for x in f'{utc:%Y %m %d %H %M %S.%f}'.split()]
+p, v = self.tle.propagate(*_date)
+result = [x * 1000 for x in p + v]
+res_dict = self.orbit._data.copy()
+res_dict['date'] = date
+res_dict['form'] = 'cartesian'
+res_dict.pop('propagator')
+return StateVector(result, **res_dict)
+"""
+
+
+def _norm(src):
+    return [ast.unparse(st) for st in ast.parse(src.strip()).body]
+
+
+def _stmts(fn):
+    return [ast.unparse(st) for st in fn.body if not (isinstance(st, ast.Expr) and isinstance(st.value, ast.Constant))]
+
+
+def gen_wrap_bind():
+    tree = ast.parse(open(WRAP_PY).read())
+    cls = py2lean.find_function(tree, "Sgp4")
+    members = []
+    fns = {}
+    for n in cls.body:
+        if isinstance(n, ast.Expr) and isinstance(n.value, ast.Constant):
+            continue
+        if not isinstance(n, ast.FunctionDef):
+            raise py2lean.Untranslatable(f"class Sgp4 has a member that is not a method: {ast.unparse(n)[:60]}")
+        name = n.name + (".setter" if any("setter" in ast.unparse(d) for d in n.decorator_list) else "")
+        members.append(name)
+        fns[name] = n
+    known = ["orbit", "orbit.setter", "_state", "propagate"]
+    if sorted(members) != sorted(known):
+        raise py2lean.Untranslatable(f"class Sgp4 has members {members}; the wrapper model knows {known} (every other method is a path to the satellite record that is not modelled)")
+    for name, expect in (("orbit", EXPECT_GETTER), ("orbit.setter", EXPECT_SETTER), ("propagate", EXPECT_PROPAGATE)):
+        if _stmts(fns[name]) != _norm(expect):
+            diff = [a for a in _stmts(fns[name]) if a not in _norm(expect)]
+            raise py2lean.Untranslatable(f"Sgp4.{name} is not the modelled statement list; not modelled: {diff[:3]}")
+    # who else writes the record / the key
+    for name, fn in fns.items():
+        for node in ast.walk(fn):
+            if isinstance(node, ast.Attribute) and isinstance(node.ctx, ast.Store) and node.attr in ("tle", "_bound_to", "_orbit") and name != "orbit.setter":
+                raise py2lean.Untranslatable(f"Sgp4.{name} assigns self.{node.attr}: only the setter may")
+    # _state: the key
+    st = fns["_state"]
+    body = [x for x in st.body if not (isinstance(x, ast.Expr) and isinstance(x.value, ast.Constant))]
+    local = {}
+    for x in body[:-1]:
+        if not (isinstance(x, ast.Assign) and len(x.targets) == 1 and isinstance(x.targets[0], ast.Name)):
+            raise py2lean.Untranslatable(f"Sgp4._state: {ast.unparse(x)[:60]}")
+        local[x.targets[0].id] = x.value
+    ret = body[-1]
+    if not (isinstance(ret, ast.Return) and isinstance(ret.value, ast.Tuple)):
+        raise py2lean.Untranslatable("Sgp4._state does not return a tuple")
+    key = []
+    for e in ret.value.elts:
+        e = local.get(e.id, e) if isinstance(e, ast.Name) else e
+        txt = ast.unparse(e)
+        if txt == "orbit.tobytes()":
+            key.append("tobytes")
+        elif isinstance(e, ast.Attribute) and isinstance(e.value, ast.Name) and e.value.id == "orbit":
+            key.append(e.attr)
+        elif (isinstance(e, ast.Call) and ast.unparse(e.func) == "tuple" and isinstance(e.args[0], ast.GeneratorExp)
+              and ast.unparse(e.args[0].elt) == "orbit._data.get(k)" and isinstance(e.args[0].generators[0].iter, (ast.Tuple, ast.List))):
+            key += [c.value for c in e.args[0].generators[0].iter.elts]
+        else:
+            raise py2lean.Untranslatable(f"Sgp4._state compares {txt[:60]}: not modelled")
+    # what Tle.from_orbit reads of the orbit
+    fo = py2lean.find_function(ast.parse(open(TLE_PY).read()), "Tle.from_orbit")
+    reads = []
+    for node in ast.walk(fo):
+        r = None
+        if isinstance(node, ast.Attribute) and isinstance(node.value, ast.Name) and node.value.id == "orbit" and isinstance(node.ctx, ast.Load):
+            r = node.attr
+        elif isinstance(node, ast.Assign) and isinstance(node.value, ast.Name) and node.value.id == "orbit":
+            r = "coords"           # `i, Ω, e, ω, M, n = orbit`
+        if r and r not in reads:
+            reads.append(r)
+    q = lambda xs: "[" + ", ".join('"' + x + '"' for x in xs) + "]"
+    return ("/- GENERATED by harness/props/C07.py (gen_wrap_bind) from beyond/propagators/sgp4.py and beyond/io/tle.py — do not edit.\n"
+            "The statement lists of Sgp4.orbit (getter, setter) and Sgp4.propagate were compared with the ones the wrapper model stands for\n"
+            "(the extraction fails on any other shape); what is left to prove is about the two sets below. -/\n"
+            "namespace BeyondVerif.Sgp4Wrap\n\n"
+            f"/-- members of class Sgp4 -/\ndef sgp4Members : List String := {q(members)}\n\n"
+            f"/-- what `Sgp4._state(orbit)` compares (`orbit.<name>`, `orbit._data.get(<name>)`) -/\ndef stateKeyReads : List String := {q(key)}\n\n"
+            f"/-- what `Tle.from_orbit(orbit)` reads of the orbit (`coords` = the six values of `orbit.copy(form='TLE', frame='TEME')`) -/\n"
+            f"def fromOrbitReads : List String := {q(reads)}\n\n"
+            "end BeyondVerif.Sgp4Wrap\n")
+
+
 def extract(ctx):
     body, loop, info = gen_beta()
     ch = py2lean.instantiate(core.LEAN, "Sgp4Beta", body, "beyond/propagators/sgp4beta.py")
+    if core.write_if_changed(os.path.join(core.LEAN, "BeyondVerif", "Generated", "Sgp4WrapBind.lean"), gen_wrap_bind()):
+        ch.append("Generated/Sgp4WrapBind.lean")
     ch += instantiate.main()
     return ch
 
@@ -343,7 +472,7 @@ def fmt_tle(p):
     ndots = f"{p['ndot']: 0.8f}".replace("0.", ".")
     l1 = (f"1 {p['norad']:05d}U {p['cospar']:<8} {p['year'] % 100:02d}{p['day']:012.8f} {ndots:>10} {exp_field(p['nddm'], p['ndde'])} "
           f"{exp_field(p['bm'], p['be'])} 0 {p['elnb']:>4}")
-    l2 = (f"2 {p['norad']:05d} {p['inc']:8.4f} {p['raan']:8.4f} {p['e7']:07d} {p['argp']:8.4f} {p['ma']:8.4f} {p['n8'] / 1e8:11.8f}{p['revs']:>5}")
+    l2 = (f"2 {p['norad']:05d} {p['inc']:8.4f} {p['raan']:8.4f} {p['e7']:07d} {p['argp']:8.4f} {p['ma']:8.4f} {p['n_revday'] if 'n_revday' in p else p['n8'] / 1e8:11.8f}{p['revs']:>5}")
     l1 += str(checksum(l1))
     l2 += str(checksum(l2))
     assert len(l1) == 69 and len(l2) == 69, (l1, l2)
@@ -526,7 +655,7 @@ def gen_directed(rng, k):
     names.insert(0, name + ("" if ok else "(threshold-not-reachable)"))
     l1, l2 = fmt_tle(_fix(p))
     info = info_of_lines(l1, l2)
-    info.update(regime="directed-" + regime, feature="+".join(names), side=rnd % 2, bstar=p["bm"] * 10.0 ** (p["be"] - 5))
+    info.update(regime="directed-" + regime, feature="+".join(names), side=rnd % 2, bstar=p["bm"] * 10.0 ** (p["be"] - 5), fields=p)
     return l1, l2, info
 
 
@@ -887,6 +1016,254 @@ def check_tle(out, rng, l1, l2, info, offsets):
             out.fail(family_of(info, off, "native-label"), "native SGP4 gives different states for two labels of the same instant", dict(inp, other=str(other)), observed=goto, expected=gotn, dpos_m=dp)
 
 
+# ---------------------------------------------------------------- the wrapper clause on MUTABLE orbits obtained in every way
+#
+# "Propagating an orbit built from a TLE with the default SGP4 propagator returns the state given by the reference for that TLE":
+# an orbit is a mutable object.  Whatever way it was obtained (read from text — then it carries the Tle object it was read from —, loaded
+# from an OMM, built by hand, copied, converted to another form / frame and back) and whichever of the inputs of the satellite record
+# were edited in place since (each of the six elements, the epoch, B*, ndot, ndotdot, the label fields; before or after a first
+# propagation), the reply must be the reference's for the element set the orbit holds NOW.  Expected values: python-sgp4 on lines the
+# harness writes itself (fmt_tle) from the orbit's current values.
+
+SOURCES = ["tle.orbit", "tle.from_string", "tle-3-lines", "hand-built", "omm-kvn", "omm-xml", "copy", "deepcopy", "pickle",
+           "copy-of-propagated", "form-roundtrip", "frame-roundtrip"]
+EDIT_FIELDS = ["i", "Ω", "e", "ω", "M", "n", "date", "bstar", "ndot", "ndotdot", "norad_id", "cospar_id", "element_nb", "revolutions", "name"]
+ELEMENT_INDEX = {"i": 0, "Ω": 1, "e": 2, "ω": 3, "M": 4, "n": 5}
+NUMERIC_FIELDS = ["i", "Ω", "e", "ω", "M", "n", "date", "bstar", "ndot", "ndotdot"]
+
+
+def unfloat5(x):
+    """(mantissa, exponent) of the 'decimal point assumed' field for x = 0.ddddd x 10^exp — written here, not beyond's _unfloat"""
+    if x == 0:
+        return 0, 0
+    m, _, ex = f"{abs(x):.4e}".partition("e")
+    mant, ex = int(m.replace(".", "")), int(ex) + 1
+    if ex < -9:
+        mant, ex = int(round(abs(x) * 10 ** 14)), -9
+    if ex > 0:
+        ex = min(ex, 9)
+    return (-mant if x < 0 else mant), ex
+
+
+def fields_of_orbit(orb):
+    """TLE field values of what the orbit holds NOW, read through its public attributes (an independent formatter: no Tle.from_orbit)"""
+    o = orb if (str(orb.form) == "tle" and orb.frame.name == "TEME") else orb.copy(form="TLE", frame="TEME")
+    i, Om, e, w, M, n = (float(x) for x in o)
+    utc = o.date.change_scale("UTC").datetime
+    day = 1 + ((utc - _dt.datetime(utc.year, 1, 1)) // US) / 86_400_000_000
+    bm, be = unfloat5(float(o.bstar))
+    nm, ne = unfloat5(float(o.ndotdot) / 6)
+    cos = getattr(o, "cospar_id", "") or ""
+    y, _, piece = cos.partition("-")
+    return {"norad": int(getattr(o, "norad_id", 99999)), "cospar": (y[2:] + piece) if cos else "", "year": utc.year, "day": day, "ndot": float(o.ndot) / 2, "nddm": nm, "ndde": ne,
+            "bm": bm, "be": be, "elnb": int(o.element_nb), "inc": math.degrees(i) % 360, "raan": math.degrees(Om) % 360, "e7": int(f"{e:.7f}"[2:]) if 0 <= e < 1 else -1,
+            "argp": math.degrees(w) % 360, "ma": math.degrees(M) % 360, "n_revday": n * 86400 / (2 * math.pi), "revs": int(o.revolutions)}
+
+
+def make_orbit(source, l1, l2):
+    """an orbit holding the element set of the lines, obtained the given way; returns (orbit, note)"""
+    import copy as _copy
+    import pickle
+    from beyond.io.tle import Tle
+    from beyond.io import ccsds
+    from beyond.orbits import Orbit
+    text = l1 + "\n" + l2
+    if source == "tle.from_string":
+        return next(Tle.from_string(text)).orbit()
+    if source == "tle-3-lines":
+        return Tle("0 SAT-C07\n" + text).orbit()
+    t = Tle(text)
+    if source == "hand-built":
+        return Orbit(t.to_list(), t.epoch, "TLE", "TEME", "Sgp4", bstar=t.bstar, ndot=t.ndot, ndotdot=t.ndotdot, norad_id=t.norad_id, cospar_id=t.cospar_id,
+                     element_nb=t.element_nb, revolutions=t.revolutions, name="")
+    if source in ("omm-kvn", "omm-xml"):
+        t = Tle("SAT-C07\n" + text)
+        return ccsds.loads(ccsds.dumps(t.orbit(), fmt=source[4:]))
+    orb = t.orbit()
+    if source == "copy":
+        return orb.copy()
+    if source == "deepcopy":
+        return _copy.deepcopy(orb)
+    if source == "pickle":
+        return pickle.loads(pickle.dumps(orb))
+    if source == "copy-of-propagated":
+        orb.propagate(orb.date)
+        return orb.copy()
+    if source == "form-roundtrip":
+        return orb.copy(form="keplerian_mean").copy(form="TLE")
+    if source == "frame-roundtrip":
+        return orb.copy(frame="EME2000").copy(frame="TEME", form="TLE")
+    return orb
+
+
+def apply_edit(orb, tb, field, how):
+    """in-place edit of ONE input of the satellite record to the value the second element set `tb` (a parsed Tle) holds"""
+    if field in ELEMENT_INDEX:
+        v = float(tb.to_list()[ELEMENT_INDEX[field]])
+        if how == "index":
+            orb[ELEMENT_INDEX[field]] = v
+        else:
+            setattr(orb, field, v)
+    elif field == "date":
+        orb.date = tb.epoch
+    elif field == "name":
+        orb.name = "EDITED"
+    else:
+        setattr(orb, field, getattr(tb, field))
+
+
+_key_reads = []
+
+
+def history_key(orb):
+    """`Sgp4._state(orbit)` as read from the source (the list `stateKeyReads` of Generated/Sgp4WrapBind.lean), evaluated by the harness"""
+    if not _key_reads:
+        import re
+        try:
+            _key_reads.extend(re.findall(r'"([^"]+)"', gen_wrap_bind().split("def stateKeyReads")[1].split("\n")[0]))
+        except py2lean.Untranslatable:
+            # the extractor refused the current sgp4.py (reported by extract); the last modelled key is used to drive the comparison
+            _key_reads.extend(["tobytes", "date", "form", "frame", "bstar", "ndot", "ndotdot"])
+    return tuple(orb.tobytes() if r == "tobytes" else str(getattr(orb, r)) if r in ("date", "form", "frame") else repr(orb._data.get(r)) for r in _key_reads)
+
+
+def gen_history(rng, k):
+    """k-th history: source and single edited field cycle (every source x field pair within len(SOURCES) x len(EDIT_FIELDS) cases), then combinations"""
+    regime = ["near-drag", "near-drag", "near-full", "deep"][k % 4]
+    pa, pb = base_fields(rng, regime), base_fields(rng, regime if rng.random() < 0.7 else "near-full")
+    if rng.random() < 0.25:
+        FEATURES[rng.randrange(len(FEATURES))][1](pa, rng, rng.randrange(2))
+    a, b = fmt_tle(_fix(pa)), fmt_tle(_fix(pb))
+    n_single = len(SOURCES) * len(EDIT_FIELDS)
+    if k % (n_single + 60) < n_single:
+        edits = [[EDIT_FIELDS[k % len(EDIT_FIELDS)]]]
+    else:
+        r = rng.random()
+        pool = ["bstar", "ndot", "ndotdot", "norad_id", "cospar_id", "element_nb", "revolutions", "name"] if r < 0.4 else EDIT_FIELDS
+        edits = [rng.sample(pool, rng.randint(2, min(5, len(pool))))] if r < 0.9 else [[]]
+    if rng.random() < 0.3:
+        edits.append([rng.choice(EDIT_FIELDS)] if rng.random() < 0.5 else ["back"])        # a second round: another field, or back to the original values
+    day = 86_400_000_000
+    offs = [rng.choice([-1, 1]) * rng.randint(day // 8, 12 * day) for _ in range(4)]
+    return {"lines": list(a), "lines_b": list(b), "source": SOURCES[(k // len(EDIT_FIELDS)) % len(SOURCES)] if k % (n_single + 60) < n_single else rng.choice(SOURCES),
+            "first_propagation": rng.random() < 0.5, "how": rng.choice(["index", "attr"]), "edits": edits, "offsets_us": offs, "label": rng.choice(LABELS)}
+
+
+def run_history(h, on_propagate, on_event=None):
+    """drive a real orbit through the history `h`; `on_propagate(orbit, expected_lines, offset_us, date, stage)` is called for every
+    propagation with the lines the harness writes from the orbit's current values; `on_event(kind, orbit)` for 'new' / 'edit'"""
+    from beyond.io.tle import Tle
+    from beyond.dates import Date
+    l1, l2 = h["lines"]
+    ta, tb = Tle(l1 + "\n" + l2), Tle(h["lines_b"][0] + "\n" + h["lines_b"][1])
+    orb = make_orbit(h["source"], l1, l2)
+    if on_event:
+        on_event("new", orb)
+    offs = list(h["offsets_us"])
+
+    def prop(stage):
+        cur = fmt_tle(fields_of_orbit(orb))
+        off = offs.pop(0) if offs else 3_600_000_000
+        epoch_utc = orb.date.change_scale("UTC").datetime
+        target = epoch_utc + off * US
+        date = Date(target, scale="UTC")
+        if h["label"] != "UTC":
+            date = date.change_scale(h["label"])
+        on_propagate(orb, cur, off, target, date, stage)
+    if h["first_propagation"]:
+        prop("first")
+    for n, fields in enumerate(h["edits"]):
+        for f in fields:
+            if f == "back":
+                for g in EDIT_FIELDS:
+                    if g != "name":
+                        apply_edit(orb, ta, g, h["how"])
+            else:
+                apply_edit(orb, tb, f, h["how"])
+        if on_event:
+            on_event("edit", orb)
+        prop(f"after-edit-{n + 1}")
+        if n == 0:
+            prop(f"after-edit-{n + 1}-again")
+
+
+def history_family(h, stage):
+    ed = "+".join(sorted(set(f for fs in h["edits"] for f in fs))) or "none"
+    return f"wrapper-history:{h['source']}:{'already-propagated' if h['first_propagation'] else 'never-propagated'}:edit={ed}:{stage}"
+
+
+@contextlib.contextmanager
+def frame_eq_by_name():
+    """proposed_fixes/C07-frame-identity-after-pickle.diff applied in memory (nothing written): frames compare by name.  Used only to
+    CLASSIFY a failing history of an unpickled orbit: if it disappears under this repair it belongs to the open finding
+    C07-unpickled-orbit-frame-identity, any other failure keeps its own family"""
+    from unittest.mock import patch
+    from beyond.frames.frames import Frame
+    with patch.object(Frame, "__eq__", lambda a, b: a.name == b.name if isinstance(b, Frame) else NotImplemented, create=True), \
+            patch.object(Frame, "__hash__", lambda a: hash(a.name), create=True):
+        yield
+
+
+def check_history(out, h, classify=True):
+    """oracle: after any history the default propagator returns the reference's state for the lines of the CURRENT values"""
+    if classify and h["source"] == "pickle":
+        # an unpickled orbit carries Frame objects equal to no registered frame (open finding): run the history on its own, classify its failures
+        sub = Outcome()
+        check_history(sub, h, classify=False)
+        if sub.failures:
+            rep_ = Outcome()
+            with frame_eq_by_name():
+                check_history(rep_, h, classify=False)
+            if not rep_.failures:
+                for f in sub.failures:
+                    f["family"] = "wrapper-history:unpickled-frame-identity"
+        out.cases += sub.cases
+        out.keys |= sub.keys
+        out.failures += sub.failures
+        for k, v in sub.dist.items():
+            out.dist[k] = out.dist.get(k, 0) + v
+        return
+    inp = {"history": h}
+
+    def on_propagate(orb, cur, off, target, date, stage):
+        try:
+            sat = reference(*cur)
+        except Exception:
+            # the values the orbit holds cannot be written as a TLE (eccentricity outside [0, 1) after a conversion …): no reference value
+            out.tally("wrapper-history=current-values-not-a-TLE-skipped")
+            return
+        exp = ref_state(sat, target)
+        edited = sorted(set(f for fs in h["edits"] for f in fs)) if stage != "first" else []
+        out.count(key=(tuple(h["lines"]), h["source"], tuple(edited), stage, off), kind="wrapper-history", source=h["source"], stage=stage, first=h["first_propagation"],
+                  edited_numeric=any(f in NUMERIC_FIELDS or f == "back" for f in edited), ref="error" if exp is None else "ok")
+        for f in edited or ["(none)"]:
+            out.tally("history-edit-field=" + f)
+        if exp is None:
+            return
+        try:
+            got = [float(x) for x in orb.propagate(date)]
+        except Exception as e:
+            if tiny_fields(cur[0]):
+                out.tally("wrapper-history=two-digit-exponent-left-to-pinned-corpus")
+                return
+            out.fail(history_family(h, stage) + ":raises-" + type(e).__name__, "default SGP4 propagator raises after in-place edits where the reference returns a state for the current element set",
+                     dict(inp, stage=stage, current_lines=cur), observed=repr(e), expected=exp)
+            return
+        speed = norm(exp[3:])
+        dp, dv = dist(got, exp)
+        if not (dp <= tol_pos(speed) and all(map(math.isfinite, got))):
+            out.fail(history_family(h, stage), "default SGP4 propagator does not return the reference's state for the element set the orbit holds NOW "
+                     "(lines written by the harness from the orbit's current values)", dict(inp, stage=stage, current_lines=cur, offset_us=off, utc=target.isoformat()),
+                     observed=got, expected=exp, dpos_m=dp, tol_m=tol_pos(speed))
+    try:
+        run_history(h, on_propagate)
+    except Exception as e:
+        if h["source"].startswith("omm"):
+            out.tally("wrapper-history=" + h["source"] + "-load-raises-" + type(e).__name__ + "-(ccsds module, not an anchor of C07)")
+            return
+        raise
+
+
 def info_of_lines(l1, l2):
     """what the generator records about a TLE, recomputed from its text (pinned corpus, replay)"""
     year = int(l1[18:20])
@@ -931,6 +1308,9 @@ def oracle(ctx, widened):
                 label = rng.choice(LABELS)
                 offsets.append((off, label, rng.choice([x for x in LABELS if x != label])))
             check_tle(out, rng, l1, l2, info, offsets)
+        # mutable orbits: every source x every edited input, before / after a first propagation (gen_history)
+        for k in range((12 if (widened or ctx.thorough) else 1) * (len(SOURCES) * len(EDIT_FIELDS) + 60)):
+            check_history(out, gen_history(rng, k))
         for _ in range(N):
             l1, l2, info = gen_tle(rng)
             if rng.random() < 0.1:
@@ -949,6 +1329,10 @@ def replay(f):
     import random
     out = Outcome()
     i = f["input"]
+    if "history" in i:
+        with eop():
+            check_history(out, i["history"])
+        return out
     l1, l2 = i["line1"], i["line2"]
     info = info_of_lines(l1, l2)
     if i.get("name"):
@@ -976,6 +1360,7 @@ class Recorder:
         from sgp4.io import twoline2rv
         from sgp4.earth_gravity import wgs72
         self.lines = [l1, l2]
+        self.binds = getattr(self, "binds", []) + [(l1, l2)]
         self.const_is_wgs72 = const is wgs72
         self.extra = (extra, kw)          # the model hands exactly (line1, line2, wgs72) to the library: its default mode of operation
         rec = self
@@ -1310,9 +1695,94 @@ def refspec_cases(ctx, out):
             out.sample({"request": req[:50] + "…", "python-sgp4": exp["state"], "spec": st}, limit=2)
 
 
+# ---------------------------------------------------------------- correspondence (4): the binding state machine
+
+REC_FIELDS = ["satnum", "epochyr", "epochdays", "ndot", "bstar", "inclo", "nodeo", "ecco", "argpo", "mo", "no_kozai"]
+
+
+def record_of(lines):
+    sat = reference(*lines)
+    return tuple(getattr(sat, f) for f in REC_FIELDS)
+
+
+def binding_cases(ctx, out):
+    """real Orbit / Sgp4 objects driven through random histories (sources x in-place edits x propagations) against `Sgp4Wrap.runSeq`
+    (`Machine.step`): the setter must run exactly when the model says, and the lines it hands to twoline2rv must be the ones the harness
+    writes from the values of the version the model names (always the current one when the key changed)"""
+    from unittest.mock import patch
+    rng = ctx.rng
+    reqs, meta = [], []
+    with eop():
+        for k in range(ctx.n(1, 8) * (len(SOURCES) * len(EDIT_FIELDS) + 60)):
+            h = gen_history(rng, k)
+            rec = Recorder()
+            rec.binds = []
+            toks, obs, versions, keys = [], [], [], {}
+
+            def on_propagate(orb, cur, off, target, date, stage):
+                key = history_key(orb)
+                kid = keys.setdefault(key, len(keys))
+                if (kid, cur) not in versions:
+                    versions.append((kid, cur))
+                ver = versions.index((kid, cur))
+                toks.extend([f"e{kid}:{ver}", "p"])
+                n0 = len(rec.binds)
+                try:
+                    orb.propagate(date)
+                    err = None
+                except TypeError:
+                    err = None           # the library reported an error code: `False + False`
+                except Exception as e:
+                    err = repr(e)
+                obs.append((len(rec.binds) - n0, rec.binds[-1] if rec.binds else None, stage, err))
+            try:
+                with patch("beyond.propagators.sgp4.twoline2rv", rec.twoline2rv):
+                    run_history(h, on_propagate)
+            except Exception as e:
+                out.tally("binding=" + h["source"] + "-raises-" + type(e).__name__ + "-left-to-oracle")
+                continue
+            if any(o[3] for o in obs):
+                out.tally("binding=wrapper-raises-left-to-oracle")
+                continue
+            reqs.append("wrapseq " + " ".join(toks))
+            meta.append((h, obs, versions))
+            out.count(key=(tuple(h["lines"]), h["source"], repr(h["edits"])), kind="binding-history", source=h["source"], first=h["first_propagation"], propagations=len(obs))
+    replies = core.Driver().run(reqs)
+    for req, (h, obs, versions), rep in zip(reqs, meta, replies):
+        toks = rep.split()
+        if len(toks) != len(obs):
+            out.fail("binding-model", "model rejected the history", {"history": h}, observed=obs, expected=rep)
+            continue
+        for (nb, lines, stage, _e), t in zip(obs, toks):
+            ran, ver = t.split(":")
+            out.tally(f"binding-setter-ran={ran}")
+            if (nb > 0) != (ran == "1") or nb > 1:
+                out.fail("binding-rebind", f"the orbit setter ran {nb} time(s) during this propagation, the model says {ran}", {"history": h, "stage": stage}, observed=nb, expected=int(ran))
+                break
+            want = versions[int(ver)][1]
+            if h["source"] == "pickle" and lines is not None and list(lines) != list(want):
+                # open finding C07-unpickled-orbit-frame-identity: `regen` (Tle.from_orbit, a parameter of the wrapper model) sends an unpickled
+                # orbit through a TEME -> TEME conversion; the oracle reports and classifies it, the binding logic is compared on the event only
+                out.tally("binding=unpickled-orbit-regen-differs-(open finding, left to the oracle)")
+                continue
+            try:
+                same = lines is not None and record_of(lines) == record_of(want)
+            except Exception:
+                same = lines is not None and list(lines) == list(want)
+            if not same:
+                # what moves the state: epoch, B*, the six elements (not the catalogue number, not ndot — SGP4 does not read it)
+                moves = [k for k, f in enumerate(REC_FIELDS) if f not in ("satnum", "ndot")]
+                numeric = lines is None or [record_of(lines)[k] for k in moves] != [record_of(want)[k] for k in moves]
+                out.fail(history_family(h, stage) + ":lines", "the lines handed to twoline2rv are not those of the values the orbit holds (version named by the model)",
+                         {"history": h, "stage": stage}, observed=list(lines) if lines else None, expected=list(want), violates_property=bool(numeric))
+                break
+        out.sample({"request": req[:80], "model": rep, "setter_ran": [o[0] for o in obs]}, limit=2)
+
+
 def correspondence(ctx):
     out = Outcome()
     wrapper_cases(ctx, out)
+    binding_cases(ctx, out)
     native_cases(ctx, out)
     refspec_cases(ctx, out)
     return out
